@@ -464,6 +464,9 @@ def classify_known(scen, plan, key, text, out):
     return None
 
 
+_reported = set()
+
+
 def report(chk, key, text, replay, dev_known):
     kk = replay.get("known_key")
     f = chk.match_known(kk) if kk else None
@@ -473,7 +476,14 @@ def report(chk, key, text, replay, dev_known):
         chk.known_hit(f)
         f.setdefault("example", replay)
         return
-    chk.violation(("unlisted finding %s: " % kk if kk else "") + "%s: %s" % (key, text), replay)
+    if kk:
+        # a documented defect that is not (yet) listed in known_findings.json: one report per key
+        if kk in _reported:
+            return
+        _reported.add(kk)
+        chk.violation("unlisted finding %s: %s" % (kk, KNOWN_TEXT.get(kk) or EXTRA_KNOWN.get(kk) or text), replay)
+        return
+    chk.violation("%s: %s" % (key, text), replay)
 
 
 def main():
@@ -519,12 +529,16 @@ def main():
 
     def run(cases):
         """a verdict that depends on the wall-clock watchdog (WATCHDOG, HANG) must repeat"""
+        def shaky(o):
+            # wall clock (watchdog, hang) or the environment (ephemeral ports exhausted by the parallel runs)
+            h = o.split("|M.")[0]
+            return "WATCHDOG" in h or o.startswith("HANG") or o == "" or "=EADDRINUSE" in h or "=EADDRNOTAVAIL" in h
         outs = run_once(cases)
-        idx = [i for i, o in enumerate(outs) if "WATCHDOG" in o.split("|M.")[0] or o.startswith("HANG") or o == ""]
+        idx = [i for i, o in enumerate(outs) if shaky(o)]
         if idx:
             again = run_once([cases[i] for i in idx])
             for i, a in zip(idx, again):
-                if not ("WATCHDOG" in a.split("|M.")[0] or a.startswith("HANG") or a == ""):
+                if not shaky(a):
                     outs[i] = a
         return outs
 
@@ -545,6 +559,14 @@ def main():
         for pl in unit_plans(chk.rng, n, thorough):
             cases.append("%s seq:%s" % (scen, ",".join(pl) if pl else "o"))
             meta.append((scen, name, head, pre))
+    cpath = os.path.join(vf.VERIF, "corpus", "C16", "unit.txt")
+    if os.path.exists(cpath):
+        byscen = {u[0]: u for u in UNITS}
+        for ln in open(cpath):
+            ln = ln.strip()
+            if ln and not ln.startswith("#") and ln.split()[0] in byscen:
+                cases.insert(0, ln)
+                meta.insert(0, byscen[ln.split()[0]])
     outs = run(cases)
     mcases, impls = [], []
     for c, o, (scen, name, head, pre) in zip(cases, outs, meta):
@@ -620,6 +642,18 @@ def main():
             continue
         for (pl, nm, kind, api) in single_plans(refpts[s], chk.rng, thorough, s in QUICK_SKIP_HEAVY):
             plans.append((s, pl, kind, api, nm))
+    cpath = os.path.join(vf.VERIF, "corpus", "C16", "cases.txt")
+    if os.path.exists(cpath):
+        corp = []
+        for ln in open(cpath):
+            ln = ln.strip()
+            if ln and not ln.startswith("#") and ln.split()[0] in refs:
+                sc, pl = ln.split()[:2]
+                m_ = re.match(r"at:[MW]\.([a-z0-9_]+)#\d+=(\w+)", pl)
+                kd = "EINTR" if (m_ and m_.group(2).startswith("I")) else (m_.group(2) if m_ else "none")
+                corp.append((sc, pl, kd, "corpus", m_.group(1) if m_ else ""))
+        have = set((a, b) for a, b, _, _, _ in plans)
+        plans = [c_ for c_ in corp if (c_[0], c_[1]) not in have] + plans
     if thorough:
         # pairs for the small scenarios
         for s in ("loop", "basic", "pairs", "signal", "work", "fs_event", "fs_poll", "spawn", "udp", "ipc", "dns"):
